@@ -496,6 +496,42 @@ pub fn exec(op: &str, fmt: &str, payload: &str) -> Result<String, String> {
             let c = rd.term()?;
             format!("b {}", b(a == c))
         }
+        "roundtrip" => {
+            // property C01 evaluated directly: parse(format(v)) is Ok with the same canonical form
+            let f = efmt(fmt)?;
+            let v = rd.narsese()?;
+            let text = f.format_narsese(&v);
+            let back = eparse_out(f, &text);
+            format!("b {}", b(back == format!("ok {}", ser::narsese(&v, Mode::Canon))))
+        }
+        "agree" => {
+            // property C03 evaluated directly: both pipelines succeed and give the same value
+            let s = rd.string()?;
+            let e = exec("eparse", fmt, &ser::hs(&s))?;
+            let l = exec("lfold", fmt, &ser::hs(&s))?;
+            format!("b {}", b(e == l && e.starts_with("ok ")))
+        }
+        "hasheq" => {
+            use std::hash::{BuildHasher, Hash, Hasher};
+            let a = rd.term()?;
+            let c = rd.term()?;
+            let h = |t: &Term, mut st: Box<dyn Hasher>| -> u64 {
+                struct W<'a>(&'a mut dyn Hasher);
+                impl<'a> Hasher for W<'a> {
+                    fn finish(&self) -> u64 { self.0.finish() }
+                    fn write(&mut self, b: &[u8]) { self.0.write(b) }
+                }
+                t.hash(&mut W(st.as_mut()));
+                st.finish()
+            };
+            let mut same = h(&a, Box::new(std::collections::hash_map::DefaultHasher::new()))
+                == h(&c, Box::new(std::collections::hash_map::DefaultHasher::new()));
+            for _ in 0..3 {
+                let rs = std::collections::hash_map::RandomState::new();
+                same &= h(&a, Box::new(rs.build_hasher())) == h(&c, Box::new(rs.build_hasher()));
+            }
+            format!("b {}", b(same))
+        }
         "typst" => typst_out(&rd.narsese()?),
         "api" => api_out(&rd.term()?),
         "lapi" => lapi_out(&rd.lterm()?),
